@@ -92,6 +92,10 @@ type streamCase struct {
 	// (the input goroutine waits to deliver the last one), the application
 	// suspends and resumes, then reads on
 	SuspendFirst bool `json:"suspend_and_resume_with_undelivered_keys_first,omitempty"`
+	// SixelVia: a terminal with sixel support announces it in the device
+	// attributes only ("da1"), in the graphics reply only ("xtsmgraphics") or
+	// in both ("")
+	SixelVia string `json:"sixel_announced_by,omitempty"`
 }
 
 func evText(ev vaxis.Event) (string, bool) {
@@ -358,6 +362,7 @@ func genStream(r gen.R) streamCase {
 	if r.Intn(6) == 0 {
 		n = r.Range(200, 400)
 	}
+	sc.SixelVia = []string{"", "da1", "xtsmgraphics"}[r.Intn(3)]
 	if r.Intn(4) == 0 {
 		// a queue larger than the number of start-up notifications (which
 		// are posted without blocking) and smaller than the stream's events
@@ -406,7 +411,9 @@ func runStream(w *harness.W, sc streamCase, r gen.R) (violKey string) {
 	w.Begin(string(cj))
 	defer w.End()
 	caps := refterm.CapsFromMask(sc.Caps)
-	sess, err := vxh.Start(80, 24, caps, vaxis.Options{EventQueueSize: sc.Queue}, nil)
+	sess, err := vxh.Start(80, 24, caps, vaxis.Options{EventQueueSize: sc.Queue}, func(t *refterm.Terminal, c *memcon.Console) {
+		t.SixelVia = sc.SixelVia
+	})
 	if err != nil {
 		w.Inconclusive("start-failed")
 		return ""
